@@ -1,5 +1,148 @@
+(* Properties_C10.v -- exported theorems for C10 (element sections: partial reads are slices, partial writes are
+   splices).  Only statements, each closed by [exact] of a lemma of ElemSpliceProofs.v, each followed by
+   Print Assumptions.  The model is ElemSplice.v (transcription of src/cgnslib.c); [splice] is the pointwise
+   element-level specification (it does not mention the case split of the code), [rep_fixed npe st f E] says that
+   the mirror + file state [st] of a fixed-size section represents the section (first = f, elements = E) with a
+   coherent cache. *)
 From Coq Require Import ZArith List.
-From CgnsV Require Import ElemSplice ElemSpliceProofs.
+From CgnsV Require Import ListX ElemSplice ElemSpliceProofs.
+Import ListNotations.
 Local Open Scope Z_scope.
-Theorem C10_stub : tri4 = tri4. Proof. reflexivity. Qed.
-Print Assumptions C10_stub.
+
+(* The pointwise specification and the shape built by the code (new ++ gap ++ old | old ++ gap ++ new |
+   head ++ new ++ tail) agree for every relative position of the two ranges. *)
+Theorem C10_splice_spec_is_struct : forall (A : Type) (ph : A) f E s N,
+  E <> [] -> N <> [] -> splice ph f E s N = splice_struct ph f E s N.
+Proof. exact @splice_is_struct. Qed.
+Print Assumptions C10_splice_spec_is_struct.
+
+(* WRITE IS SPLICE, memcpy level: the in-memory splice program of cg_elements_general_write (malloc, three-way
+   case split, memcpy offsets, gap fill, "my counting is off" test) returns exactly the flattened splice -- for all
+   element sizes, all stored ranges, all written ranges (before / overlapping the front / inside / overlapping the
+   back / after / covering, with or without a gap); in particular it never faults and never miscounts. *)
+Theorem C10_write_is_splice_memcpy : forall npe f E s N,
+  0 < npe -> E <> [] -> N <> [] -> all_len npe E -> all_len npe N ->
+  fixed_splice npe f (f + lenZ E - 1) s (s + lenZ N - 1) (lenZ (concat E)) (concat E) (concat N)
+  = Some (Some (concat (splice (repeat 0 (Z.to_nat npe)) f E s N))).
+Proof. exact fixed_splice_is_splice. Qed.
+Print Assumptions C10_write_is_splice_memcpy.
+
+(* WRITE IS SPLICE, entry-point level (cg_elements_partial_write / cg_elements_general_write with either memory
+   type, in-place path and in-memory path, cached or not): range, dimension, file contents and cache of the new
+   state represent (min f start, splice zeros f E start N). *)
+Theorem C10_write_is_splice : forall pv npe st f E start N mt,
+  rep_fixed npe st f E -> s_par st = None -> N <> [] -> all_len npe N ->
+  exists st', elements_general_write pv st start (start + lenZ N - 1) mt (concat N) = ROk st'
+              /\ rep_fixed npe st' (Z.min f start) (splice (repeat 0 (Z.to_nat npe)) f E start N)
+              /\ s_par st' = None /\ s_type st' = s_type st /\ s_dt st' = s_dt st.
+Proof. exact elements_general_write_is_splice. Qed.
+Print Assumptions C10_write_is_splice.
+
+(* READ IS SLICE (cg_elements_partial_read from the file or from the cache it fills; cg_elements_general_read). *)
+Theorem C10_read_is_slice : forall npe st f E a b,
+  rep_fixed npe st f E -> f <= a -> a <= b -> b <= f + lenZ E - 1 ->
+  exists st', elements_partial_read st a b false = ROk (st', [concat (slice_elems f E a b)])
+              /\ rep_fixed npe st' f E /\ s_par st' = s_par st.
+Proof. exact elements_partial_read_is_slice. Qed.
+Print Assumptions C10_read_is_slice.
+
+Theorem C10_general_read_is_slice : forall npe st f E a b mt,
+  rep_fixed npe st f E -> f <= a -> a <= b -> b <= f + lenZ E - 1 ->
+  elements_general_read st a b mt = ROk (st, [concat (slice_elems f E a b)]).
+Proof. exact elements_general_read_is_slice. Qed.
+Print Assumptions C10_general_read_is_slice.
+
+(* HISTORIES: after any sequence of partial writes the state still represents the fold of [splice] -- range,
+   connectivity length, contents and cache stay mutually consistent (rep_fixed), by induction over the history. *)
+Theorem C10_consistent_fixed : forall pv npe ws st f E,
+  rep_fixed npe st f E -> s_par st = None ->
+  Forall (fun w => snd w <> [] /\ all_len npe (snd w)) ws ->
+  exists st', impl_run pv st ws = ROk st' /\
+              rep_fixed npe st' (fst (spec_run npe f E ws)) (snd (spec_run npe f E ws)) /\ s_par st' = None.
+Proof. exact write_history_is_splice. Qed.
+Print Assumptions C10_consistent_fixed.
+
+(* PARENT DATA, repaired code (/repo 4b28a57, variant PFixed): resizing a parent array (two columns, one row per
+   element) after a write of s..e into a section f..l keeps every untouched old row with its element and gives a
+   zero row to every gap, new or rewritten element; never faults. *)
+Theorem C10_parent_fixed : forall old f l s e,
+  f <= l -> s <= e -> lenZ old = 2 * (l - f + 1) ->
+  let lo := Z.min f s in let hi := Z.max l e in
+  let newsize := hi - lo + 1 in let oldsize := l - f + 1 in
+  exists r, resize_one PFixed old newsize oldsize (if s <? f then f - s else 0) (s - lo) (e - s + 1) = Some r /\
+            lenZ r = 2 * newsize /\
+            forall c i, (c = 0 \/ c = 1) -> lo <= i <= hi ->
+              nthZ r (c * newsize + (i - lo)) 0 = parent_row_spec old oldsize f l s e c i.
+Proof. exact resize_one_fixed. Qed.
+Print Assumptions C10_parent_fixed.
+
+(* PARENT DATA, historical code (variant PCurrent, before 4b28a57): REFUTED.  TRI_3 section 1..4 with parent data,
+   reopen, cg_elements_partial_write(5,6): the code writes past the end of the new parent array. *)
+Theorem C10_parent_refuted : ~ parent_extend_safe PCurrent.
+Proof. exact parent_refuted. Qed.
+Print Assumptions C10_parent_refuted.
+Theorem C10_parent_refuted_prepend :
+  exists st conn, run PCurrent RCurrent None hist_prepend
+    = ROk (st, [conn; [0;0;13;14;0;0; 0;0;23;24;0;0; 0;0;33;34;0;0; 0;0;43;44;0;0]]).
+Proof. exact parent_current_prepend_clobbers. Qed.
+Print Assumptions C10_parent_refuted_prepend.
+
+(* cg_poly_elements_read AS IT IS (variant RCurrent): REFUTED -- NGON_n stored as I4, one partial write, full read
+   in the same session fails; the proposed repair (RFixed) answers the slice. *)
+Definition C10_poly_read_total (rv : rvariant) : Prop :=
+  run PFixed rv None hist_polyread <> RErr.
+Theorem C10_poly_read_refuted : ~ C10_poly_read_total RCurrent.
+Proof. intros H. exact (H polyread_current_fails). Qed.
+Print Assumptions C10_poly_read_refuted.
+
+(* Rebased start offsets of a partial read: off'[i] = off[i] - off[0], off'[0] = 0. *)
+Theorem C10_rebased_offsets : forall l i, 0 <= i < lenZ l -> nthZ (rebase l) i 0 = nthZ l i 0 - nthZ l 0 0.
+Proof. exact rebase_nth. Qed.
+Print Assumptions C10_rebased_offsets.
+
+(* VARIABLE-SIZE SECTIONS (MIXED, NGON_n, NFACE_n): the full statement, kept visible; it is NOT proved -- the
+   variable-size splice is covered by the correspondence run, by the Python oracle and by computed instances
+   (poly_six_positions).  elements are given by their start offsets; placeholder = (NODE,0) for MIXED, (0,0) else. *)
+Definition chunks (data offs : list Z) : list (list Z) :=
+  map (fun k => slice data (nthZ offs (Z.of_nat k) 0) (nthZ offs (Z.of_nat k + 1) 0 - nthZ offs (Z.of_nat k) 0))
+      (seq 0 (length offs - 1)).
+Definition C10_poly_write_is_splice_full : Prop :=
+  forall type f E s N, (type = MIXED \/ type = NGON_n \/ type = NFACE_n) -> E <> [] -> N <> [] ->
+    Forall (fun e => e <> []) E -> Forall (fun e => e <> []) N ->
+    let offs l := fold_left (fun acc e => acc ++ [last acc 0 + lenZ e]) l [0] in
+    exists data o, poly_splice type f (f + lenZ E - 1) s (s + lenZ N - 1) (concat E) (offs E) (concat N) (offs N)
+                   = Some (Some (data, o)) /\
+                   chunks data o = splice (if type =? MIXED then [NODE; 0] else [0; 0]) f E s N.
+Theorem C10_poly_write_is_splice_partial :
+  poly_case 22 6 7 [21;22;23;24;25;26] [0;3;6]
+    = Some ([21;22;23;24;25;26; 0;0; 0;0; 1;2;3;4;5;6;7;8;9;10], [0;3;6;8;10;13;17;20]) /\
+  poly_case 22 9 10 [21;22;23;24;25;26] [0;3;6] = Some ([21;22;23;24;25;26; 4;5;6;7;8;9;10], [0;3;6;10;13]) /\
+  poly_case 22 11 11 [21;22] [0;2] = Some ([1;2;3;21;22;8;9;10], [0;3;5;8]) /\
+  poly_case 22 12 13 [21;22;23;24;25;26] [0;3;6] = Some ([1;2;3;4;5;6;7;21;22;23;24;25;26], [0;3;7;10;13]) /\
+  poly_case 22 14 14 [21;22;23] [0;3] = Some ([1;2;3;4;5;6;7;8;9;10; 0;0; 21;22;23], [0;3;7;10;12;15]) /\
+  poly_case 22 9 13 [1;1;2;2;3;3;4;4;5;5] [0;2;4;6;8;10] = Some ([1;1;2;2;3;3;4;4;5;5], [0;2;4;6;8;10]) /\
+  poly_case 20 14 14 [5;21;22;23] [0;4] = Some ([1;2;3;4;5;6;7;8;9;10; 2;0; 5;21;22;23], [0;3;7;10;12;16]).
+Proof. exact poly_six_positions. Qed.
+Print Assumptions C10_poly_write_is_splice_partial.
+
+(* ---- non-vacuity: concrete states satisfying the hypotheses --------------------------------------------------- *)
+Definition tri_state : section :=
+  mkS 5 I8 3 6 12 tri4 None false 0 [] None None.
+Example rep_fixed_inhabited : rep_fixed 3 tri_state 3 [[1;2;3];[4;5;6];[7;8;9];[10;11;12]].
+Proof.
+  apply mkRep; try reflexivity; simpl; auto.
+  - repeat constructor.
+  - discriminate.
+Qed.
+(* the write theorem instantiated on it, position "before with a gap": elements 0..0 written, 1..2 placeholders *)
+Example write_before_gap :
+  exists st', elements_general_write PFixed tri_state 0 0 I8 [7;7;7] = ROk st' /\
+              s_r0 st' = 0 /\ s_r1 st' = 6 /\ s_conn st' = [7;7;7; 0;0;0; 0;0;0; 1;2;3;4;5;6;7;8;9;10;11;12].
+Proof. eexists. vm_compute. repeat split; reflexivity. Qed.
+Example parent_fixed_append :
+  exists st conn, run PFixed RCurrent None hist_append
+    = ROk (st, [conn; [11;12;13;14;0;0; 21;22;23;24;0;0; 31;32;33;34;0;0; 41;42;43;44;0;0]]).
+Proof. exact parent_fixed_append_ok. Qed.
+Example poly_read_fixed :
+  exists st, run PFixed RFixed None hist_polyread = ROk (st, [[0;0;1;2;3;0;0]; [0;2;5;7]]).
+Proof. exact polyread_fixed_ok. Qed.
